@@ -42,9 +42,26 @@ func vMakeAssets(t *testing.T) {
 	os.WriteFile(filepath.Join(dir, "key.pem"), pem.EncodeToMemory(&pem.Block{Type: "EC PRIVATE KEY", Bytes: kb}), 0o600)
 	os.MkdirAll(filepath.Join(dir, "pages_good"), 0o700)
 	os.WriteFile(filepath.Join(dir, "pages_good", "503.html"), []byte("custom503[{{ .Message }}]"), 0o600)
+	vPagesVersion = 1
 	os.WriteFile(filepath.Join(dir, "pages_good", "404.html"), []byte("custom404"), 0o600)
 	os.WriteFile(filepath.Join(dir, "pages_good", "502.html"), []byte("custom502"), 0o600)
 	os.MkdirAll(filepath.Join(dir, "pages_bad"), 0o700)
 	os.WriteFile(filepath.Join(dir, "pages_bad", "503.html"), []byte("broken {{ .Message "), 0o600)
 	vAssets = dir
+}
+
+// vWritePages replaces the custom 503 page of the valid directory in place:
+// version 1 is the page vMakeAssets wrote, version 2 a different one.
+var vPagesVersion int
+
+func vWritePages(version int) {
+	if vAssets == "" || version == vPagesVersion {
+		return
+	}
+	page := "custom503[{{ .Message }}]"
+	if version == 2 {
+		page = "second503(({{ .Message }}))"
+	}
+	os.WriteFile(filepath.Join(vAssets, "pages_good", "503.html"), []byte(page), 0o600)
+	vPagesVersion = version
 }
